@@ -314,8 +314,7 @@ def validateUTXO (index : Nat) (u : Utxo) (tx : Tx) (tt : Nat) (offset : Nat) : 
       scriptValidate u.script ks.length
       pure (ks.map (fun k => (k, none)))
     | none =>
-      let sigs := tx.sigs.getD []
-      match sigs[index]? with
+      match (tx.sigs.getD [])[index]? with
       | none => rej          -- repaired: was `sigs[index]` out of range → panic
       | some m => do
         guardRej (m.any (fun p => p.1 ≥ u.keys.length))
